@@ -605,6 +605,45 @@ theorem emu_shows_across_resizes_clustered (merges : String → String → Bool)
   rw [runSegsM_eq merges cat dec cw segs s e hnm]
   exact emu_shows_across_resizes dec cw hsp hd hemp segs rows cols s e hl hok
 
+/-! ### the wire, against the renderer's SGR templates (sequences.go, regenerated) -/
+
+open VaxisModel.Model.C12Replies VaxisModel.Lemmas.C12Wire in
+omit [CapsOk caps] in
+/-- **The colour templates on the wire**: for every index / channel value, the bytes `render()` produces
+    from `fgIndexSet`, `bgIndexSet`, `fgRGBSet`, `bgRGBSet` parse to the sequence `opsOf` hands to the
+    emulator model for the renderer model's token (`38:5:i`, `48:5:i`, `38:2:r:g:b`, `48:2:r:g:b` with
+    colon sub-parameters). Completes `Props.C12.facts_wire` for the SGR vocabulary of `capsOf`. -/
+theorem facts_wire_sgr (dec : String → G) (tw : String → Nat) (i r g b : Nat) :
+    wireMatches (instFmt (strC "fgIndexSet") [intBytes i]) (opsOf dec tw (.sgr [[38, 5, i]])) = true ∧
+    wireMatches (instFmt (strC "bgIndexSet") [intBytes i]) (opsOf dec tw (.sgr [[48, 5, i]])) = true ∧
+    wireMatches (instFmt (strC "fgRGBSet") [intBytes r, intBytes g, intBytes b]) (opsOf dec tw (.sgr [[38, 2, r, g, b]])) = true ∧
+    wireMatches (instFmt (strC "bgRGBSet") [intBytes r, intBytes g, intBytes b]) (opsOf dec tw (.sgr [[48, 2, r, g, b]])) = true := by
+  have h1 : strC "fgIndexSet" = [27, 91, 51, 56, 58, 53, 58, 37, 100, 109] := by decide
+  have h2 : strC "bgIndexSet" = [27, 91, 52, 56, 58, 53, 58, 37, 100, 109] := by decide
+  have h3 : strC "fgRGBSet" = [27, 91, 51, 56, 58, 50, 58, 37, 100, 58, 37, 100, 58, 37, 100, 109] := by decide
+  have h4 : strC "bgRGBSet" = [27, 91, 52, 56, 58, 50, 58, 37, 100, 58, 37, 100, 58, 37, 100, 109] := by decide
+  refine ⟨?_, ?_, ?_, ?_⟩
+  · rw [h1]; simp [instFmt, opsOf, wireMatches, csiWire, paramBytes, sgrParam, List.intercalate, intBytes, natDigits]
+  · rw [h2]; simp [instFmt, opsOf, wireMatches, csiWire, paramBytes, sgrParam, List.intercalate, intBytes, natDigits]
+  · rw [h3]; simp [instFmt, opsOf, wireMatches, csiWire, paramBytes, sgrParam, List.intercalate, intBytes, natDigits]
+  · rw [h4]; simp [instFmt, opsOf, wireMatches, csiWire, paramBytes, sgrParam, List.intercalate, intBytes, natDigits]
+
+open VaxisModel.Model.C12Replies VaxisModel.Lemmas.C12Wire in
+omit [CapsOk caps] in
+/-- The one-digit colour templates (`fgSet`, `bgSet`, `fgBrightSet`, `bgBrightSet`, digits 0–7) and the
+    attribute / reset constants parse to the single-parameter `CSI n m` of the renderer model's tokens. -/
+theorem facts_wire_sgr_consts (dec : String → G) (tw : String → Nat) :
+    ((List.range 8).all fun i =>
+      wireMatches (instFmt (strC "fgSet") [intBytes i]) (opsOf dec tw (.sgr [[30 + i]])) &&
+      wireMatches (instFmt (strC "bgSet") [intBytes i]) (opsOf dec tw (.sgr [[40 + i]])) &&
+      wireMatches (instFmt (strC "fgBrightSet") [intBytes i]) (opsOf dec tw (.sgr [[90 + i]])) &&
+      wireMatches (instFmt (strC "bgBrightSet") [intBytes i]) (opsOf dec tw (.sgr [[100 + i]]))) = true ∧
+    ([("boldSet", 1), ("dimSet", 2), ("italicSet", 3), ("underlineSet", 4), ("blinkSet", 5), ("reverseSet", 7),
+      ("hiddenSet", 8), ("strikethroughSet", 9), ("boldDimReset", 22), ("italicReset", 23), ("underlineReset", 24),
+      ("blinkReset", 25), ("reverseReset", 27), ("hiddenReset", 28), ("strikethroughReset", 29), ("fgReset", 39),
+      ("bgReset", 49)].all fun (p : String × Nat) => wireMatches (strC p.1) (opsOf dec tw (.sgr [[p.2]]))) = true :=
+  ⟨rfl, rfl⟩
+
 /-! ### the instances: with and without `COLORTERM=truecolor` -/
 
 /-- The capability set of a Vaxis inside the emulator whose environment has `COLORTERM=truecolor`
